@@ -91,28 +91,28 @@ def regen(skip=()):
     if rc3 == 3:
         st['api'] = (False, out3.strip()[-600:])
     elif rc3 != 0:
-        raise Infra(f'api2lean.py crashed rc={rc3}: {err3[-2000:]}')
+        st['api'] = (False, f'api2lean.py crashed rc={rc3}: {err3[-400:]}')
     # the coordinate classes (C15), regenerated from geodepy/coord.py
     rc4, out4, err4 = run(['python3', os.path.join(VERIF, 'translator', 'coord2lean.py'), '--repo', REPO, '--out',
                            os.path.join(LEAN, 'GeodeVerif', 'GenF', 'Coord.lean')], timeout=120)
     if rc4 == 3:
         st['coord'] = (False, out4.strip()[-600:])
     elif rc4 != 0:
-        raise Infra(f'coord2lean.py crashed rc={rc4}: {err4[-2000:]}')
+        st['coord'] = (False, f'coord2lean.py crashed rc={rc4}: {err4[-400:]}')
     # transform.ntv2_2d (C17), regenerated from geodepy/transform.py
     rc5, out5, err5 = run(['python3', os.path.join(VERIF, 'translator', 'ntv2d2lean.py'), '--repo', REPO, '--out',
                            os.path.join(LEAN, 'GeodeVerif', 'GenF', 'Ntv2d.lean')], timeout=120)
     if rc5 == 3:
         st['ntv2d'] = (False, out5.strip()[-600:])
     elif rc5 != 0:
-        raise Infra(f'ntv2d2lean.py crashed rc={rc5}: {err5[-2000:]}')
+        st['ntv2d'] = (False, f'ntv2d2lean.py crashed rc={rc5}: {err5[-400:]}')
     # the methods of the angle classes (C08, C12), regenerated from geodepy/angles.py
     rc6, out6, err6 = run(['python3', os.path.join(VERIF, 'translator', 'angles2lean.py'), '--repo', REPO, '--out',
                            os.path.join(LEAN, 'GeodeVerif', 'GenF', 'AnglesCls.lean')], timeout=120)
     if rc6 == 3:
         st['angles'] = (False, out6.strip()[-600:])
     elif rc6 != 0:
-        raise Infra(f'angles2lean.py crashed rc={rc6}: {err6[-2000:]}')
+        st['angles'] = (False, f'angles2lean.py crashed rc={rc6}: {err6[-400:]}')
     return st
 
 
